@@ -546,6 +546,10 @@ func ratString(r *big.Rat, s *Sort) string {
 }
 
 type printer struct {
+	ufmul   bool // print products/quotients of two non-literal terms as uninterpreted functions
+	noPoly  bool // (internal) the next term is an atom: do not normalise it itself
+	defs    map[string]*Term // definitions of named scalars (for polynomial expansion)
+	inlineDepth int
 	sb      *strings.Builder
 	syms    map[string]*Term // const symbols encountered
 	funs    map[string]*Term // uninterpreted function applications (first seen)
@@ -599,6 +603,41 @@ func (p *printer) term(t *Term) {
 		}
 		p.sb.WriteString(")")
 	default:
+		if p.ufmul {
+			skip := p.noPoly
+			p.noPoly = false
+			isArith := (t.S.K == SReal || t.S.K == SInt) && (t.Op == "+" || t.Op == "-" || t.Op == "*")
+			if isArith && !skip {
+				if q := p.poly(t); q != nil {
+					p.printPoly(q, t.S)
+					return
+				}
+			}
+			if t.Op == "*" && len(t.Args) == 2 && !t.Args[0].IsNum() && !t.Args[1].IsNum() {
+				// too large to expand: plain uninterpreted product
+				name := "nlmul_" + t.S.String()
+				a, b := p.atomString(t.Args[0]), p.atomString(t.Args[1])
+				if a > b {
+					a, b = b, a
+				}
+				if _, ok := p.funs[name]; !ok {
+					p.funs[name] = &Term{Op: name, S: t.S, Args: []*Term{{S: t.S}, {S: t.S}}}
+				}
+				p.sb.WriteString("(" + name + " " + a + " " + b + ")")
+				return
+			}
+			if t.Op == "/" && len(t.Args) == 2 && !t.Args[1].IsNum() {
+				if _, ok := p.funs["nldiv"]; !ok {
+					p.funs["nldiv"] = &Term{Op: "nldiv", S: RealS, Args: []*Term{{S: RealS}, {S: RealS}}}
+				}
+				p.sb.WriteString("(nldiv ")
+				p.term(t.Args[0])
+				p.sb.WriteString(" ")
+				p.term(t.Args[1])
+				p.sb.WriteString(")")
+				return
+			}
+		}
 		if !builtinOps[t.Op] {
 			if _, ok := p.funs[t.Op]; !ok {
 				p.funs[t.Op] = t
@@ -652,7 +691,15 @@ func collectSyms(t *Term, out map[string]bool, seen map[*Term]bool) {
 
 // Script builds a complete SMT-LIB script: asserts all of `asserts`, check-sat and optionally get-value.
 func Script(asserts []*Term, getValues []*Term, logicHint string) string {
-	p := &printer{sb: &strings.Builder{}, syms: map[string]*Term{}, funs: map[string]*Term{}, strLits: map[string]bool{}}
+	return ScriptOpt(asserts, getValues, logicHint, false)
+}
+
+func ScriptOpt(asserts []*Term, getValues []*Term, logicHint string, ufmul bool) string {
+	return ScriptDefs(asserts, getValues, logicHint, ufmul, nil)
+}
+
+func ScriptDefs(asserts []*Term, getValues []*Term, logicHint string, ufmul bool, defs map[string]*Term) string {
+	p := &printer{ufmul: ufmul, defs: defs, sb: &strings.Builder{}, syms: map[string]*Term{}, funs: map[string]*Term{}, strLits: map[string]bool{}}
 	var bodies []string
 	for _, a := range asserts {
 		p.sb.Reset()
